@@ -31,6 +31,19 @@ enum Case {
     NearCC { x: i32, y: i32, m1: u32, m2: u32, dir: u8, k: u32, crossing: bool, inner: bool },
     /// line at distance r -+ 5k*2^-30 from the centre
     NearCL { x: i32, y: i32, m: u32, dir: u8, k: u32, crossing: bool },
+    /// real-valued lines through P = (x,y)/2000 (so |P| <= 500) with directions theta and theta + delta, delta = +-10^(-6 f/65535)
+    /// (1e-6 .. 1 rad); defining points at signed distances a1,b1 / a2,b2 (milli-units, |.| <= 500, at least 1 apart) from P
+    RealLL { x: i32, y: i32, theta: u16, f: u16, neg: bool, a1: i32, b1: i32, a2: i32, b2: i32 },
+    /// a small circle (radius rs micro-units, 1e-3 .. 1) crossing a big one (radius rb milli-units): its centre lies at distance
+    /// rb - rs + margin .. rb + rs - margin from the big centre, margin = 5% of the small radius
+    CrossTiny { x: i32, y: i32, rb: u32, rs: u32, theta: u16, f: u16 },
+    /// (nearly) concentric circles: radii r and r + delta, centres `off` apart. delta mode 0: 0; 1: fl(1e-9) moved by `ulps` ulps of r;
+    /// 2: 10^-(3 + 9 f/65535); off mode 0: 0; 1: 1e-13; 2: 1e-11; 3: 1e-9. Inside the tolerance band only the reported points are judged.
+    Concentric { x: i32, y: i32, r: u32, theta: u16, dmode: u8, ulps: i8, f: u16, omode: u8, neg: bool },
+    /// point at distance r*(1-m), r, r*(1+m) from the centre (zone 0, 1, 2), m = 1e-3 + f/65536
+    RealPos { x: i32, y: i32, r: u32, theta: u16, zone: u8, f: u16 },
+    /// point P + t*d + off*n of the line through P + a*d and P + b*d; off = 0 (on the line) or |off| >= 1e-3
+    RealContains { x: i32, y: i32, theta: u16, a: i32, b: i32, t: i32, off: i32 },
 }
 
 const TOL: f64 = 1e-7;
@@ -106,9 +119,11 @@ fn check_cc(desc: &str, a: (f64, f64, f64), b: (f64, f64, f64), want: KCC, touch
         }
         if pts.len() == 2 {
             // chord length from exact geometry
-            let d = ((a.0 - b.0).powi(2) + (a.1 - b.1).powi(2)).sqrt();
-            let h = (a.2 * a.2 - b.2 * b.2 + d * d) / (2.0 * d);
-            let chord = 2.0 * (a.2 * a.2 - h * h).max(0.0).sqrt();
+            // measured from the smaller circle, differences factorised: well conditioned for any size ratio
+            let (sm, bg) = if a.2 <= b.2 { (a, b) } else { (b, a) };
+            let d = (a.0 - b.0).hypot(a.1 - b.1);
+            let h = ((d - bg.2) * (d + bg.2) + sm.2 * sm.2) / (2.0 * d);
+            let chord = 2.0 * ((sm.2 - h) * (sm.2 + h)).max(0.0).sqrt();
             let got = ((pts[0].x - pts[1].x).powi(2) + (pts[0].y - pts[1].y).powi(2)).sqrt();
             vensure!((got - chord).abs() <= 1e-6, "circle-circle/chord", "{} the two points are {:.9} apart, exact chord {:.9}", desc, got, chord);
         }
@@ -275,9 +290,12 @@ fn run_case(c: &Case) -> CaseResult {
                 if ex.abs() <= 1e3 && ey.abs() <= 1e3 {
                     let (e1, e2) = (off_line(&p, p1.0 as f64, p1.1 as f64, q1.0 as f64, q1.1 as f64), off_line(&p, p2.0 as f64, p2.1 as f64, q2.0 as f64, q2.1 as f64));
                     vensure!(e1 <= TOL && e2 <= TOL, "line-line/point-off", "{:?}: reported intersection {:?} is {:.3e} / {:.3e} off the two lines", c, p, e1, e2);
-                    vensure!((p.x - ex).abs() <= 1e-6 && (p.y - ey).abs() <= 1e-6, "line-line/point-off", "{:?}: reported {:?}, exact ({}, {})", c, p, ex, ey);
-                    st.nontrivial = true;
                     let sine = (cr as f64).abs() / (((ux * ux + uy * uy) as f64).sqrt() * ((vx * vx + vy * vy) as f64).sqrt());
+                    // a point within TOL of both lines is within 2*TOL/sine of their intersection - the statement asks no more
+                    // than that of nearly parallel lines (an earlier fixed 1e-6 here was a false alarm at sine 1.5e-7, DESIGN 9.3)
+                    let lim = 1e-6f64.max(2.0 * TOL / sine);
+                    vensure!((p.x - ex).abs() <= lim && (p.y - ey).abs() <= lim, "line-line/point-off", "{:?}: reported {:?}, exact ({}, {})", c, p, ex, ey);
+                    st.nontrivial = true;
                     if sine < 1e-5 {
                         st.label("nearly-parallel-lines-judged");
                     }
@@ -327,7 +345,7 @@ fn run_case(c: &Case) -> CaseResult {
         }
         Case::RealCC { x, y, r1, r2, theta, zone, f } => {
             let (cx, cy) = (*x as f64 / 1000.0, *y as f64 / 1000.0);
-            let (ra, rb) = ((*r1).max(10) as f64 / 1000.0, (*r2).max(10) as f64 / 1000.0);
+            let (ra, rb) = ((*r1).max(1) as f64 / 1000.0, (*r2).max(1) as f64 / 1000.0);
             let fr = *f as f64 / 65536.0;
             let (s, df) = (ra + rb, (ra - rb).abs());
             // keep >= 1e-3 absolute and a well-conditioned chord: distances stay 2% of the sum away from kind boundaries
@@ -390,7 +408,7 @@ fn run_case(c: &Case) -> CaseResult {
         }
         Case::TanCC { x, y, r1, r2, theta, inside } => {
             let (cx, cy) = (*x as f64 / 1000.0, *y as f64 / 1000.0);
-            let (ra, rb) = ((*r1).max(10) as f64 / 1000.0, (*r2).max(10) as f64 / 1000.0);
+            let (ra, rb) = ((*r1).max(1) as f64 / 1000.0, (*r2).max(1) as f64 / 1000.0);
             let u = dir(*theta);
             if *inside {
                 if (ra - rb).abs() < 1e-2 {
@@ -410,6 +428,115 @@ fn run_case(c: &Case) -> CaseResult {
             st.label("constructed-tangent-circles");
         }
         Case::NearCC { .. } | Case::NearCL { .. } => {}
+        Case::RealLL { x, y, theta, f, neg, a1, b1, a2, b2 } => {
+            let (px, py) = (*x as f64 / 2000.0, *y as f64 / 2000.0);
+            let t1 = *theta as f64 / 65536.0 * std::f64::consts::TAU;
+            let delta = 10f64.powf(-6.0 * *f as f64 / 65535.0) * if *neg { -1.0 } else { 1.0 };
+            let t2 = t1 + delta;
+            let (d1, d2) = ((t1.cos(), t1.sin()), (t2.cos(), t2.sin()));
+            let span = |a: i32, b: i32| {
+                let (a, b) = (a.clamp(-500_000, 500_000) as f64 / 1000.0, b.clamp(-500_000, 500_000) as f64 / 1000.0);
+                if (a - b).abs() < 1.0 {
+                    (a, a + 1.0)
+                } else {
+                    (a, b)
+                }
+            };
+            let ((a1, b1), (a2, b2)) = (span(*a1, *b1), span(*a2, *b2));
+            let (p1, q1) = ((px + a1 * d1.0, py + a1 * d1.1), (px + b1 * d1.0, py + b1 * d1.1));
+            let (p2, q2) = ((px + a2 * d2.0, py + a2 * d2.1), (px + b2 * d2.0, py + b2 * d2.1));
+            let (l1, l2) = (Line::between(&Point::new(p1.0, p1.1), &Point::new(q1.0, q1.1)), Line::between(&Point::new(p2.0, p2.1), &Point::new(q2.0, q2.1)));
+            for (la, lb, order) in [(&l1, &l2, "(l1, l2)"), (&l2, &l1, "(l2, l1)")] {
+                let p = match intersect_ll(la, lb) {
+                    Some(p) => p,
+                    None => return Err(Violation::new("line-line/missed", format!("{}: lines at an angle of {:.3e} rad reported parallel {}", desc, delta, order))),
+                };
+                let (e1, e2) = (off_line(&p, p1.0, p1.1, q1.0, q1.1), off_line(&p, p2.0, p2.1, q2.0, q2.1));
+                vensure!(e1 <= TOL && e2 <= TOL, "line-line/point-off", "{}: intersect_ll{} = {:?} is {:.3e} / {:.3e} off the two lines (angle {:.3e} rad, true intersection near ({}, {}))", desc, order, p, e1, e2, delta, px, py);
+            }
+            st.nontrivial = true;
+            st.label(if delta.abs() < 1e-4 { "real-lines-angle-below-1e-4" } else { "real-lines" });
+        }
+        Case::CrossTiny { x, y, rb, rs, theta, f } => {
+            let (cx, cy) = (*x as f64 / 1000.0, *y as f64 / 1000.0);
+            let big = (*rb).max(1000) as f64 / 1000.0;
+            let small = (*rs).clamp(1000, 1_000_000) as f64 / 1e6;
+            let m = 0.05 * small;
+            let d = big - small + m + (*f as f64 / 65535.0) * (2.0 * small - 2.0 * m);
+            let u = dir(*theta);
+            let (bx, by) = (cx + d * u.0, cy + d * u.1);
+            if bx.abs() > 1e3 || by.abs() > 1e3 || cx.abs() > 1e3 || cy.abs() > 1e3 {
+                return Ok(st);
+            }
+            check_cc(&desc, (cx, cy, big), (bx, by, small), KCC::Intersect, None)?;
+            st.nontrivial = true;
+            st.label(if big / small >= 1e4 { "tiny-circle-crossing-a-huge-one-ratio>=1e4" } else { "small-circle-crossing-a-big-one" });
+        }
+        Case::Concentric { x, y, r, theta, dmode, ulps, f, omode, neg } => {
+            let (cx, cy) = (*x as f64 / 1000.0, *y as f64 / 1000.0);
+            let r = (*r).max(10) as f64 / 1000.0;
+            let ulp = f64::from_bits(r.to_bits() + 1) - r;
+            let delta = match dmode % 3 {
+                0 => 0.0,
+                1 => 1e-9 + *ulps as f64 * ulp,
+                _ => 10f64.powf(-(3.0 + 9.0 * *f as f64 / 65535.0)),
+            };
+            let r2 = if *neg && r - delta >= 1e-2 { r - delta } else { r + delta };
+            let off = [0.0, 1e-13, 1e-11, 1e-9][(*omode % 4) as usize];
+            let u = dir(*theta);
+            let (ca, cb) = (Circle::new(Point::new(cx, cy), r), Circle::new(Point::new(cx + off * u.0, cy + off * u.1), r2));
+            let gap = (r2 - r).abs();
+            for (first, second, order) in [(&ca, &cb, "a,b"), (&cb, &ca, "b,a")] {
+                let res = intersect_cc(first, second);
+                for p in res.into_iter() {
+                    let (ea, eb) = (on_circle(&p, ca.c.x, ca.c.y, ca.r), on_circle(&p, cb.c.x, cb.c.y, cb.r));
+                    vensure!(
+                        ea <= TOL && eb <= TOL,
+                        "circle-circle/point-off",
+                        "{} intersect_cc({}) = {} reports the point {:?}, which is {:.3e} / {:.3e} off the two (nearly) concentric circles (radii differ by {:.3e}, centres {:.1e} apart)",
+                        desc, order, kind_cc(&res), p, ea, eb, gap, off
+                    );
+                }
+                if off == 0.0 && gap == 0.0 {
+                    vensure!(matches!(res, CircleIntersection::Same), "circle-circle/kind", "{} identical circles reported {}", desc, kind_cc(&res));
+                }
+                if gap >= off + 2e-8 {
+                    vensure!(matches!(res, CircleIntersection::None), "circle-circle/kind", "{} one circle strictly inside the other (margin {:.3e}) reported {}", desc, gap - off, kind_cc(&res));
+                }
+            }
+            st.nontrivial = gap < 2e-8;
+            st.label(if gap < 2e-8 { "concentric-inside-tolerance-band" } else { "concentric" });
+        }
+        Case::RealPos { x, y, r, theta, zone, f } => {
+            let (cx, cy) = (*x as f64 / 1000.0, *y as f64 / 1000.0);
+            let r = (*r).max(10) as f64 / 1000.0;
+            let m = 1e-3 + *f as f64 / 65536.0;
+            let (rho, want) = match zone % 3 {
+                0 => (r * (1.0 - m.min(1.0)), PointPosition::Inside),
+                1 => (r, PointPosition::Border),
+                _ => (r * (1.0 + m), PointPosition::Outside),
+            };
+            let u = dir(*theta);
+            let got = Circle::new(Point::new(cx, cy), r).position(&Point::new(cx + rho * u.0, cy + rho * u.1));
+            vensure!(got == want, "position", "{}: the point at distance {} from the centre of a circle of radius {} is classified {:?}, expected {:?}", desc, rho, r, got, want);
+            st.nontrivial = want == PointPosition::Border;
+            st.label("real-position");
+        }
+        Case::RealContains { x, y, theta, a, b, t, off } => {
+            let (px, py) = (*x as f64 / 2000.0, *y as f64 / 2000.0);
+            let d = dir(*theta);
+            let (a, b) = ((*a).clamp(-500_000, 500_000) as f64 / 1000.0, (*b).clamp(-500_000, 500_000) as f64 / 1000.0);
+            let b = if (a - b).abs() < 1.0 { a + 1.0 } else { b };
+            let t = (*t).clamp(-500_000, 500_000) as f64 / 1000.0;
+            let off = if *off == 0 { 0.0 } else { off.signum() as f64 * (1e-3 + off.unsigned_abs() as f64 / 1000.0) };
+            let l = Line::between(&Point::new(px + a * d.0, py + a * d.1), &Point::new(px + b * d.0, py + b * d.1));
+            let q = Point::new(px + t * d.0 - off * d.1, py + t * d.1 + off * d.0);
+            let got = l.contains(&q);
+            vensure!(got == (off == 0.0), "contains", "{}: a point {} off the line is reported contains = {}", desc, off, got);
+            vensure!((l.dist(&q) - off.abs()).abs() <= 1e-8, "line-dist", "{}: dist = {}, constructed {}", desc, l.dist(&q), off.abs());
+            st.nontrivial = off == 0.0;
+            st.label("real-contains");
+        }
     }
     Ok(st)
 }
@@ -591,12 +718,18 @@ fn lattice_cases(r: i32) -> impl Strategy<Value = Case> {
 
 fn real_cases() -> impl Strategy<Value = Case> {
     let coord = || prop_oneof![-1_000_000i32..=1_000_000, -5_000i32..=5_000, Just(0i32)];
-    let rad = || prop_oneof![10u32..=1_000_000, 10u32..=5_000, 500u32..=50_000];
+    let rad = || prop_oneof![4 => 10u32..=1_000_000, 3 => 10u32..=5_000, 2 => 500u32..=50_000, 2 => 1u32..=12, 1 => 990_000u32..=1_000_000];
+    let sp = || prop_oneof![-500_000i32..=500_000, -3_000i32..=3_000];
     prop_oneof![
         3 => (coord(), coord(), rad(), rad(), any::<u16>(), 0u8..3, any::<u16>()).prop_map(|(x, y, r1, r2, theta, zone, f)| Case::RealCC { x, y, r1, r2, theta, zone, f }),
         3 => (coord(), coord(), rad(), any::<u16>(), 0u8..2, any::<u16>(), any::<u16>()).prop_map(|(x, y, r, theta, zone, f, span)| Case::RealCL { x, y, r, theta, zone, f, span }),
         2 => (coord(), coord(), rad(), any::<u16>(), any::<u16>()).prop_map(|(x, y, r, theta, span)| Case::TanCL { x, y, r, theta, span }),
         2 => (coord(), coord(), rad(), rad(), any::<u16>(), any::<bool>()).prop_map(|(x, y, r1, r2, theta, inside)| Case::TanCC { x, y, r1, r2, theta, inside }),
+        3 => (coord(), coord(), any::<u16>(), any::<u16>(), any::<bool>(), (sp(), sp(), sp(), sp())).prop_map(|(x, y, theta, f, neg, (a1, b1, a2, b2))| Case::RealLL { x, y, theta, f, neg, a1, b1, a2, b2 }),
+        1 => (coord(), coord(), rad(), any::<u16>(), 0u8..3, prop_oneof![Just(0u16), any::<u16>()]).prop_map(|(x, y, r, theta, zone, f)| Case::RealPos { x, y, r, theta, zone, f }),
+        3 => (coord(), coord(), prop_oneof![1_000u32..=1_000_000, 500_000u32..=1_000_000], prop_oneof![1_000u32..=1_000_000, 1_000u32..=20_000], any::<u16>(), any::<u16>()).prop_map(|(x, y, rb, rs, theta, f)| Case::CrossTiny { x, y, rb, rs, theta, f }),
+        2 => (coord(), coord(), rad(), any::<u16>(), 0u8..3, -4i8..=4, any::<u16>(), 0u8..4, any::<bool>()).prop_map(|(x, y, r, theta, dmode, ulps, f, omode, neg)| Case::Concentric { x, y, r, theta, dmode, ulps, f, omode, neg }),
+        1 => (coord(), coord(), any::<u16>(), sp(), sp(), sp(), prop_oneof![Just(0i32), Just(1), Just(-1), -100_000i32..=100_000]).prop_map(|(x, y, theta, a, b, t, off)| Case::RealContains { x, y, theta, a, b, t, off }),
     ]
 }
 
